@@ -7,9 +7,53 @@ from depccg.cat import Category
 
 
 def run_glue(ctx, focus, n_batches):
-    rng = ctx.rng
+    import random
     cases, descr = [], []
     for b in range(n_batches):
+        # every batch is generated from its own seed, so a failure is replayable from (seed, focus, tier, batch number)
+        bseed = f'{ctx.seed}:{focus}:{int(ctx.quick)}:{b}'
+        one_batch(ctx, focus, random.Random(bseed), b, bseed, cases, descr)
+    ctx.coq_cases('retrieve_tree', glue.PRE, cases, chunk=60, describe=lambda i: descr[i])
+    ctx.stats['retrieve_cases'] = len(cases)
+
+
+class _TagFail:
+    """adds the batch seed to the data of every failure reported while a batch is processed"""
+
+    def __init__(self, ctx, bseed):
+        self._ctx, self._bseed = ctx, bseed
+
+    def __getattr__(self, k):
+        return getattr(self._ctx, k)
+
+    def fail(self, kind, desc, data):
+        d = dict(data) if isinstance(data, dict) else {'data': data}
+        d['batch_seed'] = self._bseed
+        self._ctx.fail(kind, desc, d)
+
+
+def replay(data, focus):
+    """re-generate the recorded batches from their seeds and re-run the oracles on the current implementation"""
+    import random, common
+    ctx = common.Ctx(data['property'] + '_replay', 'quick')
+    seen = set()
+    for f in data.get('failures', []):
+        d = f.get('data', {})
+        bs = d.get('batch_seed') if isinstance(d, dict) else None
+        if bs and bs not in seen:
+            seen.add(bs)
+            seed, foc, quick, b = bs.split(':')
+            ctx.quick = bool(int(quick))
+            one_batch(ctx, foc, random.Random(bs), int(b), bs, [], [])
+    for f in ctx.failures:
+        print(f"REPRODUCED [{f['kind']}]: {f['desc'][:300]}")
+    print(f'replayed {len(seen)} recorded batch(es): {len(ctx.failures)} failure(s) reproduce')
+    return (1 if ctx.failures else 0), len(seen)
+
+
+def one_batch(ctx0, focus, rng, b, bseed, cases, descr):
+    ctx = _TagFail(ctx0, bseed)
+    if True:
         kind = rng.random()
         if kind < 0.35:
             lang = 'en'
@@ -40,6 +84,18 @@ def run_glue(ctx, focus, n_batches):
         max_length = rng.choice([250, 250, 3])
         max_step = rng.choice([10000000, 10000000, rng.randint(1, 30)])
         sents = [glue.rand_sentence(rng, len(cats), nmax=4 if ctx.quick else 5, full=rng.random() < 0.5) for _ in range(rng.randint(1, 4))]
+        if focus == 'c16' and rng.random() < 0.4:
+            # rows flattened by the category dictionary to a huge negative value (the real apply_category_filters, in place)
+            from depccg.types import ScoringResult
+            P = glue.parsing()
+            cat_dict = {}
+            for s_ in sents:
+                for t_ in s_.tokens:
+                    if rng.random() < 0.5:
+                        cat_dict[t_['word']] = rng.sample(cats, rng.randint(1, max(1, len(cats) // 2)))
+            if cat_dict:
+                P.apply_category_filters([s_.tokens for s_ in sents], [ScoringResult(s_.tag, s_.dep) for s_ in sents], cats, cat_dict)
+                ctx.count('glue:category_dictionary_applied')
         cfg = dict(unary_penalty=pen8 / 8.0, beta=math.exp(-theta_odd / 16.0), use_beta=use_beta, pruning_size=pruning, nbest=nbest,
                    max_step=max_step, max_length=max_length)
         try:
@@ -48,13 +104,13 @@ def run_glue(ctx, focus, n_batches):
             ctx.fail('run_raised', f'depccg.parsing.run raised {type(e).__name__}: {e} on a well-formed batch ({lang}, nbest={nbest})',
                      {'lang': lang, 'config': {k: (v if not isinstance(v, float) else float(v)) for k, v in cfg.items()},
                       'sentences': [{'tag': s.tag.tolist(), 'dep': s.dep.tolist(), 'words': [t.get('word') for t in s.tokens]} for s in sents]})
-            continue
+            return
         if focus == 'c16':
             reference_compare(ctx, sents, res, cats, roots, binary, unary, cfg, lang)
         ctx.count('glue:grammar:' + lang)
         if len(res) != len(sents):
             ctx.fail('result_count', f'{len(sents)} sentences in, {len(res)} result lists out', {'lang': lang})
-            continue
+            return
         k = 0
         for si, (s, rs) in enumerate(zip(sents, res)):
             key = (lang, tuple(map(tuple, s.tag.tolist())), tuple(map(tuple, s.dep.tolist())), nbest, pruning, use_beta, max_step, max_length)
@@ -78,8 +134,6 @@ def run_glue(ctx, focus, n_batches):
             ctx.fail('finalizer_count', f'{len(rec)} items were handed to the finalizer but {k} trees were returned', {'lang': lang})
         if b < 2 and res and res[0]:
             ctx.sample({'glue_run': lang, 'first_tree': glue.auto_str(res[0][0].tree), 'score': res[0][0].score})
-    ctx.coq_cases('retrieve_tree', glue.PRE, cases, chunk=60, describe=lambda i: descr[i])
-    ctx.stats['retrieve_cases'] = len(cases)
 
 
 class IdGrammar:
